@@ -62,6 +62,17 @@ fn dlf_elements(f: &AFilter) -> Vec<&'static str> {
 fn filter_list(fs: &[AFilter], dlf_style: u32) -> (Result<Vec<Filter>, String>, &'static str) {
     let dlf_ok = fs.iter().all(|f| !f.not && f.lcs.k == "none" && f.ecu.k != "re" && (f.typ.k == "none" || (f.typ.k == "mstp" && f.typ.v == 3))
         && !(f.pay.k == "sub" && !f.pay.ic)); // a literal case-sensitive payload text is left to C11 (known finding there)
+    let conv_ok = !fs.is_empty() && fs.iter().all(|f| f.enabled && !f.not && f.kind == 0 && f.ecu.k == "none" && f.typ.k == "none" && f.lmin < 0 && f.lmax < 0
+        && f.pay.k == "none" && f.lcs.k == "none" && f.apid.k == "lit" && f.apid.w.len() <= 4 && f.ctid.k == "lit" && f.ctid.w.len() <= 4);
+    if conv_ok {
+        // a dlt-convert "APID CTID " list (what `adlt convert -f` reads when the file is no DLF file)
+        let refs: Vec<&AFilter> = fs.iter().collect();
+        let t = render_conv(&refs);
+        let n = fs.len();
+        let r = adlt::filter::functions::filters_from_convert_format(t.as_bytes()).map_err(|e| format!("{:?}", e))
+            .and_then(|v| if v.len() == n { Ok(v) } else { Err(format!("filters_from_convert_format returned {} filters for {} pairs", v.len(), n)) });
+        return (r, "convert_list");
+    }
     if dlf_style > 0 && dlf_ok && !fs.is_empty() {
         let refs: Vec<&AFilter> = fs.iter().collect();
         let minimal = dlf_style == 2;
@@ -157,7 +168,19 @@ fn run_stream_paced(filters: Vec<Filter>, msgs: &[DltMessage], s: &[usize]) -> R
 /// consists of filtered_msgs, or of all messages when the context reports no active filter. Returns, per position of the
 /// input, whether the stream contains it.
 fn run_ctx_stream(fs: &[AFilter], command: &str, msgs: &[DltMessage], s: &[usize], portions: usize) -> Result<Vec<bool>, String> {
-    let js = json!({"window":[0, 1_000_000],"filters": fs.iter().map(|f| render_json(f, true)).collect::<Vec<_>>()}).to_string();
+    // request variants: without "filters" for the empty set, without "window" (defaults), with the one_pass / binary flags
+    let mut req = serde_json::Map::new();
+    if !(fs.is_empty() && portions != 2) {
+        req.insert("filters".into(), json!(fs.iter().map(|f| render_json(f, true)).collect::<Vec<_>>()));
+    }
+    if !(portions == 2 && (command == "stream" || s.len() <= 20)) {
+        req.insert("window".into(), json!([0, 1_000_000]));
+    }
+    if portions == 3 {
+        req.insert("one_pass".into(), json!(false));
+        req.insert("binary".into(), json!(command == "stream"));
+    }
+    let js = Value::Object(req).to_string();
     let all: Vec<DltMessage> = s.iter().map(|k| msgs[*k - 1].clone()).collect();
     let command = command.to_string();
     catch(std::panic::AssertUnwindSafe(move || -> Result<Vec<bool>, String> {
@@ -244,7 +267,10 @@ fn run_export(fs: &[AFilter], xmsgs: &[AMsg], s: &[usize], keep: &[u32], lct: &L
         g.lcs.ids = g.lcs.ids.iter().map(|k| real(*k)).collect();
         render_json(&g, true)
     }).collect();
-    let mut cfg = json!({"name":"verif","enabled":true,"exportFileName":file,"filters":filters});
+    let mut cfg = json!({"name":"verif","exportFileName":file,"filters":filters});
+    if keep.len() != 1 {
+        cfg["enabled"] = json!(true); // otherwise left to its default
+    }
     if !keep.is_empty() {
         cfg["lifecyclesToKeep"] = Value::Array(keep.iter().map(|k| lct.infos[*k as usize - 1].clone()).collect());
     }
@@ -581,6 +607,12 @@ fn main() {
                 f.kind = kind;
                 fs.push(f);
             }
+        }
+        if ri == 0 {
+            fs.clear(); // the first random case is the empty set (its stream request has no "filters" key)
+        } else if rng.chance(1, 12) {
+            // a dlt-convert list: some positive apid/ctid pairs
+            fs = (0..rng.range(1, 5)).map(|_| gen_filter(&mut rng, "conv", 2)).collect();
         }
         // shuffle: the kinds are interleaved in the list
         for i in (1..fs.len()).rev() {
